@@ -102,21 +102,12 @@ def tree_invariants(pairs, text, k, nonsilent, tags, start_rule_nonsilent, start
             return len(dd["inner"]) == len(p.children) and all(check_dump(x, c) for x, c in zip(dd["inner"], p.children))
         if len(d) != len(pairs) or not all(check_dump(x, p) for x, p in zip(d, pairs)):
             bad.append("dump-vs-tree")
-        # compact form: an independent transcription of pest's format_pair (site/src/lib.rs), tags included
-        def render(p, indent=0, new_line=True):
-            nkids = len(p.children)
-            pre = ("  " * indent if new_line else "") + ("- " if new_line else "") + (f"{p.tag} " if p.tag else "")
-            if nkids == 0:
-                return f"{pre}{p.name}: {json.dumps(text[p.start:p.end])}"
-            if nkids == 1:
-                return f"{pre}{p.name} > {render(p.children[0], indent, False)}"
-            return f"{pre}{p.name}\n" + "\n".join(render(c, indent + 1, True) for c in p.children)
-        if compact != "\n".join(render(p) for p in pairs):
-            bad.append("dumps-compact-vs-format_pair")
-        # compact form: rule names in pre-order; leaves carry json.dumps(text)
-        names = re.findall(r"(?:^|- |> )(?:[A-Za-z_][A-Za-z_0-9]* )?([A-Za-z_][A-Za-z_0-9]*)(?=$|\n| > |: )", compact, flags=re.M)
-        if names != [x.name for x in flat]:
-            bad.append("dumps-compact-names")
+        # compact form: every pair shows up once, in pre-order, as "[tag ]name" - tags included - and leaves carry
+        # json.dumps(text).  (Only the content is compared, not indentation or separators: the property asks that
+        # dump() and dumps() agree with each other, not for one particular layout.)
+        shown = re.findall(r"(?:^|- |> )(?:([A-Za-z_][A-Za-z_0-9]*) )?([A-Za-z_][A-Za-z_0-9]*)(?=$|\n| > |: )", compact, flags=re.M)
+        if [(t or None, n) for t, n in shown] != [(x.tag or None, x.name) for x in flat]:
+            bad.append("dumps-compact-names-or-tags")
         for x in flat:
             if not x.children and f"{x.name}: {json.dumps(x.text)}" not in compact:
                 bad.append("dumps-compact-leaf")
